@@ -869,7 +869,7 @@ def run(ctx):
     B0 = ctx.time_left()      # soft budget, shared 45/25/30 by the loops
 
     # 1. angular distance sets + lookups
-    K = 24000 if T else 1500
+    K = 96000 if T else 1500
     k = 0
     while k < K and (ctx.time_left() > 0.55 * B0 or k < K // 3):
         k += 1
@@ -892,7 +892,7 @@ def run(ctx):
                                  cid, g=res[0], tag="GeoGrid")
 
     # 2. euclidean sets + lookups
-    K = 12000 if T else 1000
+    K = 48000 if T else 1000
     est = ["normal", "lattice", "duplicates", "collinear", "dyadic"]
     k = 0
     while k < K and (ctx.time_left() > 0.3 * B0 or k < K // 3):
